@@ -18,7 +18,7 @@ RULE = ('random plain tree, then 1-25 operations on interpretively addressed con
         'ayns.set_child/remove_child on lists (out-of-range set_child as a consistency-only step); indices in range, negative and out of range; keys existing, new, underscore, negative integers; values scalars and '
         'nested containers; non-trivial = an insert/pop/rename after >=1 other mutation of the same container; distinct = hash of the case')
 BUDGET = {'quick': (4, 500), 'thorough': (16, 8000)}
-ASSUMPTIONS = ['rename_child is generated for mappings only; ayns.set_child on lists only with -len <= i <= len',
+ASSUMPTIONS = ['ayns.rename_child on a list and ayns.set_child beyond the append position are applied and only the consistency of the two views is checked afterwards (what they should do is not stated)',
                'attribute assignment only for non-underscore identifier keys (underscore names are python attributes by design)',
                'values are plain data (no pre-built nodes shared between two places)']
 
@@ -30,7 +30,7 @@ VALUE = st.recursive(LEAF, lambda ch: st.one_of(st.lists(ch, max_size=3), st.dic
 MAP_OPS = ['setitem', 'setitem', 'delitem', 'setattr', 'delattr', 'update', 'update_kw', 'setdefault', 'pop', 'pop_default', 'clear',
            'set_child', 'remove_child', 'rename_child', 'rename_child']
 LIST_OPS = ['setitem', 'setitem', 'delitem', 'append', 'append', 'insert', 'insert', 'extend', 'extend_self', 'remove', 'pop', 'pop', 'pop_noarg', 'clear',
-            'set_child', 'remove_child']
+            'set_child', 'remove_child', 'rename_child']
 
 
 @st.composite
@@ -183,6 +183,10 @@ def apply_model(m, op):
                 m.pop()
             elif name == 'clear':
                 m.clear()
+            elif name == 'rename_child':
+                # the elements of a list have no names to change: whatever the node does with the request (it may refuse), both views
+                # must still agree afterwards - applied to the node, the model is re-read from it, consistency only
+                raise Unspecified((i, n + 2 + (op['pick'] % 3)))      # (a number no element has)
             elif name == 'set_child':
                 if not (-n <= i <= n):
                     # what ayns.set_child does beyond the append position / below -len is not stated anywhere: the operation is
@@ -255,6 +259,8 @@ def apply_node(node, name, args):
             node.clear()
         elif name == 'set_child':
             node.ayns.set_child(args[0], args[1])
+        elif name == 'rename_child':
+            node.ayns.rename_child(args[0], args[1])
 
 
 def describe(op_desc):
@@ -342,7 +348,7 @@ def run_case(case):
             name, args = apply_model(m, op)
             raised = None
         except Unspecified as u:
-            name, args, raised, unspecified = 'set_child', u.args[0], None, True
+            name, args, raised, unspecified = ('rename_child' if isinstance(m, list) and op['lop'] == 'rename_child' else 'set_child'), u.args[0], None, True
         except Raised as r:
             raised = r.args[0]
             name = op['mop'] if isinstance(m, dict) else op['lop']
@@ -372,7 +378,7 @@ def run_case(case):
                                 f'(an equal entry at another position was removed instead)' + '\nhistory:\n  ' + '\n  '.join(history))
         hist = '\nhistory:\n  ' + '\n  '.join(history)
         if unspecified:
-            labels.add('list.set_child-out-of-range(consistency only)')
+            labels.add('list.rename_child(consistency only)' if name == 'rename_child' or (isinstance(m, list) and op.get('lop') == 'rename_child') else 'list.set_child-out-of-range(consistency only)')
             # adopt whatever content the node has now (read through the child API) and go on checking consistency
             resynced = O.plain(root)
             model.clear()
